@@ -122,7 +122,20 @@ type propDriver struct {
 }
 
 var propDrivers = map[string]*propDriver{
-	"C06": {safe: true, notes: []string{
+	"C06": {safe: true, extra: func(w *World, tier string) []VC {
+		var vcs []VC
+		for _, eco := range sortEcosystems {
+			fn := w.funcs[eco+".(*Ecosystem).NewVersion"]
+			if fn == nil {
+				continue
+			}
+			vcs = append(vcs, VC{Name: eco + ".(*Ecosystem).NewVersion.c06[no-panic].bounded", Prop: "C06", Kind: "bounded.api", Fn: eco + ".(*Ecosystem).NewVersion", Pos: w.pos(fn.Pos()),
+				Clause:  eco + ": NewVersion, NewVersionRange, Compare and Contains never panic and the constructors return exactly one of value and error",
+				Bounded: "the package's own literals, every string up to length 3 over the syntax alphabet, malformed range fragments, and strings mixing multi-byte runes, invalid UTF-8 and NUL with version characters (up to four tokens, also embedded in range syntax)",
+				Run:     func() SolveResult { return falsifierAsObligation(w, fn, panicFalsifier) }})
+		}
+		return vcs
+	}, notes: []string{
 		"C06 claims: absence of run-time panics (index, slice bounds, nil dereference, failed type assertion, division, make with negative length) for every repository function under its contract, callee preconditions at every call site, and value-xor-error for every constructor",
 		"termination is proved only implicitly for unit-stride loops (the auto-summary bounds the iteration count by the loop guard); while-style loops and the time bound (at most quadratic) are not decided by this technique",
 	}},
@@ -140,6 +153,17 @@ var propDrivers = map[string]*propDriver{
 	"C16": {extra: func(w *World, tier string) []VC { return w.versInvVCs(tier) },
 		notes: []string{"C16 is a bounded stand-in (the real vers.Contains on a range and every re-spelling of it); never counted as proved"}},
 	"C09": {extra: func(w *World, tier string) []VC { return w.pep440VCs() }},
+	"C20": {extra: func(w *World, tier string) []VC { return w.orderPosVCs() }},
+	"C15": {extra: func(w *World, tier string) []VC {
+		fn := w.funcs["cmd.run"]
+		if fn == nil {
+			return nil
+		}
+		return []VC{{Name: "cmd.run.c15[cli-vs-library].bounded", Prop: "C15", Kind: "bounded.api", Fn: "cmd.run", Pos: w.pos(fn.Pos()),
+			Clause:  "for every ecosystem name, compare / sort / contains through run() print exactly what the library calls return, on one line, with exit status 0 on success and 1 on any error",
+			Bounded: "every registered ecosystem name x versions and ranges harvested from the package sources (incl. texts with % verbs) x the three commands, plus arity and unknown-name cases",
+			Run:     func() SolveResult { return falsifierAsObligation(w, fn, cliFalsifier) }}}
+	}},
 	"C10": {extra: func(w *World, tier string) []VC { return w.refOrderVCs("C10") }},
 	"C11": {extra: func(w *World, tier string) []VC { return w.refOrderVCs("C11") }},
 	"C12": {extra: func(w *World, tier string) []VC { return w.refOrderVCs("C12") }},
@@ -175,12 +199,28 @@ var propDrivers = map[string]*propDriver{
 		}
 		return append(vcs, w.strictGrammarVC()...)
 	}, notes: []string{"parse-level agreement (text to fields) is covered by the bounded API obligations <eco>.(*Version).Compare.semver-precedence.bounded; the struct-level clauses are proved for all field values"}},
-	"C18": {extra: func(w *World, tier string) []VC { return w.textFlowVCs() },
+	"C18": {extra: func(w *World, tier string) []VC { return append(w.textFlowVCs(), w.textAPIVCs()...) },
 		notes: []string{
 			"C18 = proved postconditions (String() returns the stored text; the stored text is the input or its TrimSpace) + read-frame obligations decided by dataflow over the SSA (raw input used only through strings.TrimSpace; stored text of user-supplied values read only where it is trimmed)",
 			"from these, 'parsing the returned text again' and 'padding the input with white space' give the same non-text fields because TrimSpace is idempotent (assumed library contract) and the constructors are deterministic functions of TrimSpace(input) (C19)",
 		}},
-	"C19": {extra: func(w *World, tier string) []VC { return w.frameVCs() },
+	"C19": {extra: func(w *World, tier string) []VC {
+		vcs := w.frameVCs()
+		if tier == "thorough" {
+			// the race detector on the real API, one bounded obligation per ecosystem (thorough tier only: about 5 s each)
+			for _, eco := range sortEcosystems {
+				fn := w.funcs[eco+".(*Version).Compare"]
+				if fn == nil {
+					continue
+				}
+				vcs = append(vcs, VC{Name: eco + ".(*Version).Compare.c19[race].bounded", Prop: "C19", Kind: "bounded.api", Fn: eco + ".(*Version).Compare", Pos: w.pos(fn.Pos()),
+					Clause:  eco + ": NewVersion / NewVersionRange / Compare / Contains / String called from 8 goroutines on shared values raise no data race and give the sequential answers",
+					Bounded: "go test -race: 8 goroutines x shared freshly parsed versions and ranges from the package's own literals",
+					Run:     func() SolveResult { return falsifierAsObligation(w, fn, raceFalsifier) }})
+			}
+		}
+		return vcs
+	},
 		notes: []string{
 			"C19 is decided as a frame condition: every write site of every repository function is shown to hit activation-fresh memory by a freshness dataflow over the SSA (back end govc-dataflow, not SMT)",
 			"the step from 'all writes are activation-local and shared values are immutable after construction' to race-freedom and history-independence is a paper argument (a data race needs a write to a location another goroutine can reach)",
